@@ -214,6 +214,11 @@ var c18ClassNames = []string{"Foo", "FooUtil", "StringUtils", "UserService", "ut
 var c18Returns = []string{"return-x", "no-return", "return-null", "null-then-x", "x-then-null", "return-nullable-var", "ann-Nullable", "ann-CheckForNull", "ann-both", "ann-second-position", "return-null-string-literal"}
 
 func c18ClassGen(c *engine.C) engine.Case {
+	classes, metas, layout := c18BuildClasses(c)
+	return func() engine.Result { return c18Eval(classes, metas, layout) }
+}
+
+func c18BuildClasses(c *engine.C) ([]*jg.Class, map[*jg.Class][]c18Method, jg.Layout) {
 	layout, _ := pickLayout(c)
 	nc := []int{1, 2}[c.Choose(2, "classes")]
 	var classes []*jg.Class
@@ -324,7 +329,7 @@ func c18ClassGen(c *engine.C) engine.Case {
 			}
 		}
 	}
-	return func() engine.Result { return c18Eval(classes, metas, layout) }
+	return classes, metas, layout
 }
 
 // ---- (e) concept words ----------------------------------------------------------------------------------
@@ -426,6 +431,8 @@ func init() {
 			{Name: "modifier-permutations", KQuick: -1, KThor: -1, Gen: c18ModifierGen},
 			{Name: "evaluate-classes", KQuick: 3, KThor: 4, Gen: c18ClassGen},
 			{Name: "concept-names", KQuick: -1, KThor: -1, Gen: c18ConceptGen},
+			{Name: "through-coca-count", KQuick: 1, KThor: 2, Gen: cliGraphGen},
+			{Name: "through-coca-evaluate-concept", KQuick: 1, KThor: 2, Gen: cliEvaluateGen},
 		},
 	})
 }
